@@ -499,9 +499,199 @@ def c20_dtype(ctx):
     return [out[0]]
 
 
+# ---------------------------------------------------------------------------------------
+# NUM-SATURATE: no log of a saturated squashing function
+# ---------------------------------------------------------------------------------------
+
+# the limits a squashing function *rounds to* at moderate arguments (1 - sigmoid(z) drops below half an ulp of 1 at
+# z ~ 17 in float32, 1 - |tanh(z)| at |z| ~ 9); the limit 0 of sigmoid / softmax is only reached by underflow (z ~ -88)
+_SQUASH = {"sigmoid": (1,), "expit": (1,), "tanh": (-1, 1), "softmax": (1,)}
+_LOGS = {"log": 0, "log1p": 1, "log2": 0, "log10": 0}
+
+
+def _bounded_both_sides(mask, xtext, depth=0):
+    """does the boolean mask bound the value with text `xtext` from below and from above?
+    (~((x > c) | (x < -c)),  (x >= -c) & (x <= c),  abs(x) <= c)"""
+    import ast
+
+    def bounds(e, neg, d=0):
+        # -> set of {"lo", "hi"} that the (possibly negated) test implies for x
+        if d > 8:
+            return set()
+        if isinstance(e, ast.UnaryOp) and isinstance(e.op, (ast.Invert, ast.Not)):
+            return bounds(e.operand, not neg, d + 1)
+        if isinstance(e, ast.BinOp) and isinstance(e.op, (ast.BitAnd, ast.BitOr)) or isinstance(e, ast.BoolOp):
+            parts = [e.left, e.right] if isinstance(e, ast.BinOp) else list(e.values)
+            is_and = isinstance(e.op, (ast.BitAnd, ast.And))
+            if neg:
+                is_and = not is_and  # De Morgan
+            got = [bounds(q, neg, d + 1) for q in parts]
+            if is_and:
+                out = set()
+                for g in got:
+                    out |= g
+                return out
+            out = got[0]
+            for g in got[1:]:
+                out = out & g
+            return out
+        if isinstance(e, ast.Compare) and len(e.ops) == 1:
+            l, r, op = e.left, e.comparators[0], type(e.ops[0])
+            lt, rt = norm_text(l), norm_text(r)
+            for a, b, o in ((lt, rt, op), (rt, lt, {ast.Lt: ast.Gt, ast.LtE: ast.GtE, ast.Gt: ast.Lt, ast.GtE: ast.LtE}.get(op))):
+                if o is None:
+                    continue
+                if a == xtext and b != xtext:
+                    upper = o in (ast.Lt, ast.LtE)
+                    if neg:
+                        upper = not upper
+                    return {"hi"} if upper else {"lo"}
+                if a in ("torch.abs(%s)" % xtext, "%s.abs()" % xtext, "abs(%s)" % xtext) and o in (ast.Lt, ast.LtE) and not neg:
+                    return {"lo", "hi"}
+                if a in ("torch.abs(%s)" % xtext, "%s.abs()" % xtext, "abs(%s)" % xtext) and o in (ast.Gt, ast.GtE) and neg:
+                    return {"lo", "hi"}
+        return set()
+
+    return bounds(mask, False) == {"lo", "hi"}
+
+
+def saturate_rule(ctx):
+    """NUM-SATURATE.  sigmoid / tanh / softmax reach their limits *exactly* in floating point (float32:
+    sigmoid(17) == 1, tanh(9.1) == 1), so `log(s)`, `log1p(-s)`, `log(1 - y**2)` of their output are -inf for
+    inputs of moderate size where the quantity itself (log sigmoid'(z) = -softplus(-z) - softplus(z)) is a
+    small finite number.  Every log call in transforms / distributions / flows is examined on the symbolic
+    expansion of its function: if its argument is a polynomial in the output of one squashing call which
+    vanishes at a saturation limit of that call, and the squashed value is not confined to a two-sided
+    bounded region by a mask, it is reported.  A structural necessary condition of 'finite on moderate
+    inputs'; accuracy stays undecided."""
+    import ast
+
+    from ..astutil import _int_eval, _NoEval, const_number
+    from ..symexp import paths_of, uwalk, shash, size_upto
+
+    p = ctx.p
+    res = RuleResult("NUM-SATURATE", "no log / log1p of an expression that vanishes where a sigmoid / tanh / softmax output saturates (those limits are reached exactly in float32)")
+    n_logs = 0
+    reported = set()
+
+    def last(c):
+        f = c.func
+        return f.attr if isinstance(f, ast.Attribute) else (f.id if isinstance(f, ast.Name) else "")
+
+    def operands(c):
+        f = c.func
+        if isinstance(f, ast.Attribute) and not (isinstance(f.value, ast.Name) and f.value.id in ("torch", "F", "np", "math")) and not (isinstance(f.value, ast.Attribute) and norm_text(f.value) in ("torch.nn.functional", "torch.special")):
+            return [f.value] + list(c.args)
+        return list(c.args)
+
+    for mi in p.modules.values():
+        if not (mi.name.startswith("nflows.transforms") or mi.name.startswith("nflows.distributions") or mi.name.startswith("nflows.flows") or mi.name.startswith("nflows.nn.nde")):
+            continue
+        funcs = list(mi.functions.values()) + [m for c in mi.classes.values() for m in c.methods.values()]
+        for fi in funcs:
+            if getattr(fi, "is_lambda", False):
+                continue
+            src_calls = {last(c) for c in ast.walk(fi.node) if isinstance(c, ast.Call)}
+            if not (src_calls & set(_LOGS)) and not any(nm.startswith("_") for nm in src_calls):
+                continue
+            try:
+                paths = paths_of(fi.node)
+            except AnalysisIncomplete:
+                raise
+            except Exception:
+                continue
+            for path in paths:
+                exprs = ([path.ret] if path.ret is not None else []) + [part for eff in path.effects for part in eff[2:] if isinstance(part, ast.AST)]
+                for ex in exprs:
+                    if size_upto(ex, 20000) > 20000:
+                        continue
+                    for c in uwalk(ex):
+                        if not (isinstance(c, ast.Call) and last(c) in _LOGS):
+                            continue
+                        f = c.func
+                        if isinstance(f, ast.Attribute) and isinstance(f.value, ast.Name) and f.value.id in ("np", "math"):
+                            continue
+                        ops = operands(c)
+                        if len(ops) != 1:
+                            continue
+                        n_logs += 1
+                        arg = ops[0]
+                        squash = [q for q in uwalk(arg) if isinstance(q, ast.Call) and last(q) in _SQUASH]
+                        if not squash:
+                            continue
+                        kinds = {shash(q) for q in squash}
+                        # the outermost squashing calls only (a sigmoid inside a tanh argument is not an output)
+                        inner = {shash(x) for q in squash for a in operands(q) for x in uwalk(a) if isinstance(x, ast.Call) and last(x) in _SQUASH}
+                        outer = [q for q in squash if shash(q) not in inner]
+                        if len({shash(q) for q in outer}) != 1:
+                            continue
+                        q = outer[0]
+                        limits = _SQUASH[last(q)]
+                        # polynomial in the squashed value?
+                        hq = shash(q)
+
+                        def poly(e, d=0):
+                            if d > 40:
+                                raise _NoEval()
+                            if isinstance(e, ast.AST) and isinstance(e, ast.expr) and shash(e) == hq:
+                                return ast.Name(id="__s__", ctx=ast.Load())
+                            if isinstance(e, ast.Subscript):
+                                # a masked / indexed read of the squashed tensor is still a squashed value
+                                return poly(e.value, d + 1)
+                            if isinstance(e, ast.Call) and last(e) == "__store__":
+                                # a tensor assembled by masked stores: any stored piece may be the one read
+                                raise _NoEval()
+                            if isinstance(e, ast.BinOp):
+                                return ast.BinOp(left=poly(e.left, d + 1), op=e.op, right=poly(e.right, d + 1))
+                            if isinstance(e, ast.UnaryOp):
+                                return ast.UnaryOp(op=e.op, operand=poly(e.operand, d + 1))
+                            if isinstance(e, ast.Call) and last(e) in ("pow", "square") and operands(e):
+                                oo = operands(e)
+                                k = ast.Constant(value=2) if last(e) == "square" else (oo[1] if len(oo) > 1 else None)
+                                if k is None:
+                                    raise _NoEval()
+                                return ast.BinOp(left=poly(oo[0], d + 1), op=ast.Pow(), right=k)
+                            if const_number(e) is not None:
+                                return ast.Constant(value=const_number(e))
+                            raise _NoEval()
+
+                        try:
+                            pe = poly(arg)
+                            vals = []
+                            for lim in limits:
+                                v = _int_eval(pe, {"__s__": lim})
+                                vals.append(v + _LOGS[last(c)])
+                        except _NoEval:
+                            # masked assembly: look for the piece `squash(x[mask])` read back through the same mask
+                            continue
+                        except Exception:
+                            continue
+                        if not any(abs(v) < 1e-12 for v in vals):
+                            continue
+                        # confined to a bounded region by a mask?
+                        qa = operands(q)[0] if operands(q) else None
+                        if isinstance(qa, ast.Subscript) and _bounded_both_sides(qa.slice, norm_text(qa.value)):
+                            res.ok("%s: %s of a squashed value confined to a bounded region by its mask" % (fi.qualname, last(c)))
+                            continue
+                        key = (fi.qualname, last(c), last(q), tuple(vals))
+                        if key in reported:
+                            continue
+                        reported.add(key)
+                        at = [str(l) for l, v in zip(limits, vals) if abs(v) < 1e-12]
+                        res.fail(Finding("NUM-SATURATE", mi, fi.qualname, fi.node, "%s of an expression that is 0 where %s(..) = %s: %s rounds to that limit in float32 for inputs of moderate size (sigmoid(17) == 1, tanh(9.1) == 1), so the result is -inf where the true value is a modest finite number; use the softplus / logsigmoid form of the log-derivative" % (last(c), last(q), " or ".join(at), last(q)), construct="%s of saturating %s" % (last(c), last(q))))
+    if n_logs < getattr(ctx, "saturate_floor", 20):
+        raise AnalysisIncomplete("NUM-SATURATE: %d log calls examined on expansions (< 20)" % n_logs)
+    res.ok("%d log calls examined" % n_logs, nontrivial=False)
+    return res
+
+
 register(
     "C19",
-    [c19_rules, logspace_rule, moment_rule],
+    [c19_rules, logspace_rule, moment_rule, saturate_rule],
+    "NUM-SATURATE: every log / log1p call is examined on the symbolic expansion of its function (helpers inlined): an argument that "
+    "is a polynomial in the output of one sigmoid / tanh / softmax call and vanishes at a saturation limit of that call (log(s), "
+    "log1p(-s), log(1 - y**2)) is reported unless the squashed value is confined to a two-sided bounded region by a mask -- those "
+    "limits are reached exactly in float32 at moderate inputs, so the log is -inf where the true log-derivative is finite. "
     "NUM-MOMENT: every subtraction is examined (single-assignment locals resolved): a mean / sum of a square of X minus the "
     "square of a mean / sum of the same X is a variance from raw moments, whose float32 error scales with the square of the "
     "conditioning (the property allows the first power) and which can turn negative. NUM-LOGSPACE: every tensor log call in transforms / distributions / flows / torchutils is examined; its argument, with "
